@@ -681,6 +681,11 @@ func (e *Env) evalCall(n *ast.CallExpr) Term {
 		if int(i64) < 0 || int(i64) >= len(list) {
 			e.fail(n, "%s(%d): index out of range (the call has %d)", name, i64, len(list))
 		}
+		if len(typeArgs) > 0 {
+			if ws := e.u().sortOf(e.typeOf(typeArgs[0])); ws != list[i64].Sort {
+				e.fail(n, "STALE-CONTRACT: %s(%d) is a %s value, the clause expects %s (the anchored call is no longer the one the clause was written for)", name, i64, list[i64].Sort, ws)
+			}
+		}
 		return list[i64]
 	case "allocmark":
 		return e.st.alloc
